@@ -510,6 +510,7 @@ func checkC08(c *Ctx) {
 		c.Check(v == want, "C08-R2", "sentinel("+n+")", k.Pos(), fmt.Sprintf("== %d (minimum of its field width)", want), fmt.Sprintf("%s is %d; the invalid marker of its field is %d", n, v, want))
 	}
 	checkInvalidHandling(c, "C08-R2", lay)
+	checkDisplayValidity(c, "C08-R2")
 	// ---- R3 constants
 	cf := func(pkg, name string) (float64, bool) {
 		k := P.Const(pkg, name)
@@ -654,6 +655,61 @@ func checkInvalidHandling(c *Ctx, rule string, lay *layoutOracle) {
 				}
 			})
 		}
+	}
+}
+
+// checkDisplayValidity: in the cells' String methods a formula value is printed
+// only on paths where the rough value it is built on has been tested valid
+// (otherwise the display shows a number for an invalid measurement, or, with
+// the tests mixed up, "invalid" for a valid one).
+func checkDisplayValidity(c *Ctx, rule string) {
+	P := c.P
+	need := map[string]string{
+		"RangeInMetres": "RangeWholeMillis", "RangeInMillis": "RangeWholeMillis", "PhaseRange": "RangeWholeMillis",
+		"PhaseRangeRate": "PhaseRangeRate", "PhaseRangeRateDoppler": "PhaseRangeRate",
+	}
+	n := 0
+	for _, fam := range []string{"msm4", "msm7"} {
+		fn := P.Func("rtcm/type_"+fam+"/signal", "(*Cell).String")
+		if fn == nil {
+			c.Unresolved(rule, "rtcm/type_"+fam+"/signal.(*Cell).String")
+			continue
+		}
+		eachInstr(fn, func(ins ssa.Instruction) {
+			call, ok := ins.(*ssa.Call)
+			if !ok || call.Call.StaticCallee() == nil || call.Call.StaticCallee().Pkg != fn.Pkg {
+				return
+			}
+			field, ok := need[call.Call.StaticCallee().Name()]
+			if !ok {
+				return
+			}
+			n++
+			valid := false
+			for _, ft := range dominatingFacts(call.Block()) {
+				bo, ok := ft.Cond.(*ssa.BinOp)
+				if !ok || (bo.Op != token.EQL && bo.Op != token.NEQ) {
+					continue
+				}
+				f, base := loadedField(bo.X)
+				bf, _ := loadedField(base)
+				if f == nil || f.Name() != field || bf == nil || bf.Name() != "Satellite" {
+					continue
+				}
+				if _, isC := constInt(bo.Y); !isC {
+					continue
+				}
+				if (bo.Op == token.EQL && !ft.Val) || (bo.Op == token.NEQ && ft.Val) {
+					valid = true
+				}
+			}
+			c.Check(valid, rule, fmt.Sprintf("display-guard(%s.%s)", fam, call.Call.StaticCallee().Name()), ins.Pos(),
+				"printed only where Satellite."+field+" has been tested against its invalid marker and found valid",
+				fam+" String prints "+call.Call.StaticCallee().Name()+"() on a path where Satellite."+field+" was not tested valid: 'invalid' is shown for the wrong measurements")
+		})
+	}
+	if n == 0 {
+		c.Fail(rule, "display-guard", token.NoPos, "unresolved", "no formula value is printed by the cells' String methods")
 	}
 }
 
